@@ -238,6 +238,8 @@ func (s *schemaPropsValidator) validateOneOf(data interface{}, mainResult, keepR
 		mainResult.Merge(bestFailures)
 		// firstSucess necessarily nil
 	case 1:
+		// exactly one alternative validates: nothing kept from the failing alternatives may invalidate the result
+		_ = keepResultOneOf.cleared()
 		mainResult.Merge(firstSuccess)
 		if bestFailures != nil && bestFailures.wantsRedeemOnMerge {
 			pools.poolOfResults.RedeemResult(bestFailures)
